@@ -41,6 +41,17 @@ CLAIMED = {
    design="7/C17",
    note="Trusted: Coq kernel, translator, harness; struct IEEE unpacking and text decoding are CPython's (latin1 = identity in the runs).",
    technique="Coq proof (round-trip by induction over the parameter list, bitmap lemma) + translator facts + vm_compute correspondence"),
+ "C07": dict(
+   text="Coq theorems: every packet parser of the model (COM_QUERY with attributes, COM_STMT_EXECUTE, handshake response, "
+        "COM_CHANGE_USER, connect attributes, parameter blocks) is total on every byte string with fuel = packet length + 1 - i.e. "
+        "each loop ends within a number of iterations linear in the packet - and the NUL-terminated reader is structural; the shapes "
+        "of the loops are regenerated from types.py/packets.py/prepared.py.  Tie: every truncation and field mutation of valid packets "
+        "through the real parsers vs the model (result class and fields) under a watchdog, scaling probes of every variable-length "
+        "field, and hostile packets on a live server (one ERR and in step, or close; witness connection served; registry released).",
+   design="7/C07",
+   note="Partial: the connection-level half (one ERR / close) is checked on the implementation here and proved over the connection "
+        "machine in C03/C10; work inside sqlglot and the codecs is not bounded by this proof.",
+   technique="Coq proof (fuel-exclusion lemmas by induction on fuel) + translator facts + vm_compute correspondence + watchdog/scaling probes"),
 }
 
 PENDING = {}
